@@ -4,6 +4,7 @@ import (
 	"bytes"
 	"fmt"
 	"strings"
+	"time"
 
 	"github.com/ClickHouse/ch-go/proto"
 )
@@ -361,6 +362,7 @@ func runC18(c *Ctx) {
 	R := c.R
 	defer c18EnumRedefined(c, c.Rng.Fork())
 	defer c18RawEnumTargets(c, c.Rng.Fork())
+	defer c18Adopt(c, c.Rng.Fork())
 	R.Rule = "pairs (block schema, target list): equal, permuted, renamed, extra / missing columns, a type swapped for a look-alike (same wire width, parameter-only differences, decimal aliases around the precision bands, enum tables), blank target names, explicit ColAuto targets, zero-row header blocks with and without targets, and two-block sequences with a changed schema against the same targets. The expected verdict comes from the Lean model of the compatibility relation. non-trivial = not the identical schema; distinct by (shape, schema, targets)."
 	r := c.Rng
 	n := 150
@@ -489,6 +491,185 @@ func runC18(c *Ctx) {
 		cols := mk([]string{"String", "Int32"}, rows)
 		if cols != nil {
 			c18Bind(c, r, cols, rows, 54460, nil, "no-targets", nil)
+		}
+	}
+}
+
+// ---- adoption of the server's type parameters by inferable typed targets: Infer on the real column vs the Lean model
+// (Model.Adopt.adopt incl. cutTypes): same verdict, same reported type afterwards
+
+type c18Shape struct {
+	sx  string // shape for the model
+	mk  func() proto.Column
+	gen func(r *Rng) string // a type string of this shape with random parameters
+}
+
+func c18EnumDef(r *Rng) string {
+	names := []string{"a", "b c", "x(", ")y", "it\\'s", "q\\\\", "", "Ünï", "'' ", "k=v"}
+	w := []string{"Enum8", "Enum16"}[r.Intn(2)]
+	n := 1 + r.Intn(3)
+	var parts []string
+	for i := 0; i < n; i++ {
+		sp := []string{" = ", "=", "  =  "}[r.Intn(3)]
+		parts = append(parts, fmt.Sprintf("'%s'%s%d", names[r.Intn(len(names))], sp, r.Intn(200)-100))
+	}
+	return w + "(" + strings.Join(parts, []string{", ", ",", " ,  "}[r.Intn(3)]) + ")"
+}
+
+func c18Zone(r *Rng) string {
+	return []string{"UTC", "Europe/Moscow", "America/New_York", "Asia/Tokyo", "Nowhere/Land", "", "Local"}[r.Intn(7)]
+}
+
+func c18DT(r *Rng) string {
+	switch r.Intn(3) {
+	case 0:
+		return "DateTime"
+	default:
+		return "DateTime('" + c18Zone(r) + "')"
+	}
+}
+
+func c18DT64(r *Rng) string {
+	p := r.Intn(11)
+	switch r.Intn(3) {
+	case 0:
+		return fmt.Sprintf("DateTime64(%d)", p)
+	case 1:
+		return fmt.Sprintf("DateTime64(%d, '%s')", p, c18Zone(r))
+	default:
+		return fmt.Sprintf("DateTime64(%d,'%s')", p, c18Zone(r))
+	}
+}
+
+func c18Shapes() []c18Shape {
+	str := hx([]byte("String"))
+	i32 := hx([]byte("Int32"))
+	sep := func(r *Rng) string { return []string{", ", ",", " , "}[r.Intn(3)] }
+	return []c18Shape{
+		{"(enum)", func() proto.Column { return new(proto.ColEnum) }, c18EnumDef},
+		{"(dt)", func() proto.Column { return new(proto.ColDateTime) }, c18DT},
+		{"(dt64)", func() proto.Column { return new(proto.ColDateTime64) }, c18DT64},
+		{"(plain " + str + ")", func() proto.Column { return new(proto.ColStr) }, func(r *Rng) string { return "String" }},
+		{"(arr (enum))", func() proto.Column { return proto.NewArray[string](new(proto.ColEnum)) }, func(r *Rng) string { return "Array(" + c18EnumDef(r) + ")" }},
+		{"(arr (dt64))", func() proto.Column { return proto.NewArray[time.Time](new(proto.ColDateTime64)) }, func(r *Rng) string { return "Array(" + c18DT64(r) + ")" }},
+		{"(arr (arr (enum)))", func() proto.Column { return proto.NewArray[[]string](proto.NewArray[string](new(proto.ColEnum))) }, func(r *Rng) string { return "Array(Array(" + c18EnumDef(r) + "))" }},
+		{"(nullable (enum))", func() proto.Column { return proto.NewColNullable[string](new(proto.ColEnum)) }, func(r *Rng) string { return "Nullable(" + c18EnumDef(r) + ")" }},
+		{"(nullable (dt))", func() proto.Column { return proto.NewColNullable[time.Time](new(proto.ColDateTime)) }, func(r *Rng) string { return "Nullable(" + c18DT(r) + ")" }},
+		{"(lc (plain " + str + "))", func() proto.Column { return new(proto.ColStr).LowCardinality() }, func(r *Rng) string { return "LowCardinality(String)" }},
+		{"(map (enum) (dt64))", func() proto.Column {
+			return proto.NewMap[string, time.Time](new(proto.ColEnum), new(proto.ColDateTime64))
+		}, func(r *Rng) string { return "Map(" + c18EnumDef(r) + sep(r) + c18DT64(r) + ")" }},
+		{"(map (plain " + str + ") (arr (enum)))", func() proto.Column {
+			return proto.NewMap[string, []string](new(proto.ColStr), proto.NewArray[string](new(proto.ColEnum)))
+		}, func(r *Rng) string { return "Map(String" + sep(r) + "Array(" + c18EnumDef(r) + "))" }},
+		{"(map (enum) (map (enum) (dt)))", func() proto.Column {
+			return proto.NewMap[string, map[string]time.Time](new(proto.ColEnum), proto.NewMap[string, time.Time](new(proto.ColEnum), new(proto.ColDateTime)))
+		}, func(r *Rng) string {
+			return "Map(" + c18EnumDef(r) + sep(r) + "Map(" + c18EnumDef(r) + sep(r) + c18DT(r) + "))"
+		}},
+		{"(tuple (enum) (plain " + i32 + ") (dt64))", func() proto.Column {
+			return proto.ColTuple{new(proto.ColEnum), new(proto.ColInt32), new(proto.ColDateTime64)}
+		}, func(r *Rng) string { return "Tuple(" + c18EnumDef(r) + sep(r) + "Int32" + sep(r) + c18DT64(r) + ")" }},
+		{"(tuple (map (enum) (dt)) (enum))", func() proto.Column {
+			return proto.ColTuple{proto.NewMap[string, time.Time](new(proto.ColEnum), new(proto.ColDateTime)), new(proto.ColEnum)}
+		}, func(r *Rng) string {
+			return "Tuple(Map(" + c18EnumDef(r) + sep(r) + c18DT(r) + ")" + sep(r) + c18EnumDef(r) + ")"
+		}},
+	}
+}
+
+func c18Adopt(c *Ctx, r *Rng) {
+	R := c.R
+	if c.D == nil {
+		return
+	}
+	shapes := c18Shapes()
+	n := 40
+	if c.Thorough {
+		n = 1500
+	}
+	for si, sh := range shapes {
+		for i := 0; i < n; i++ {
+			var t string
+			switch {
+			case r.Chance(60):
+				t = sh.gen(r)
+			case r.Chance(40):
+				t = shapes[r.Intn(len(shapes))].gen(r) // a type of another shape
+			default:
+				// damaged: a byte inserted / removed / replaced among the structural characters
+				t = sh.gen(r)
+				if len(t) > 0 {
+					k := r.Intn(len(t))
+					ch := "(),' =\\"[r.Intn(7)]
+					switch r.Intn(3) {
+					case 0:
+						t = t[:k] + string(ch) + t[k:]
+					case 1:
+						t = t[:k] + t[k+1:]
+					default:
+						t = t[:k] + string(ch) + t[k+1:]
+					}
+				}
+			}
+			if !isASCII(t) {
+				continue
+			}
+			// two requests in a row on the same column: the second must not see anything of the first
+			col := sh.mk()
+			inf, ok := col.(proto.Inferable)
+			first := ""
+			if r.Chance(50) && ok {
+				first = sh.gen(r)
+				if !isASCII(first) || inf.Infer(proto.ColumnType(first)) != nil {
+					// a failed request may leave the column half way: start again from a fresh one
+					col, first = sh.mk(), ""
+					inf, _ = col.(proto.Inferable)
+				}
+			}
+			cs := map[string]any{"shape": sh.sx, "type": t, "previous_type": first}
+			R.Case(fmt.Sprintf("adopt|%d|%s|%s", si, first, t), true)
+			R.Count("shape:adopt")
+			var err error
+			if ok {
+				if p, msg := safely(func() { err = inf.Infer(proto.ColumnType(t)) }); p {
+					R.Violate(Violation{Kind: "oracle", Key: "bind-panic", What: "Infer on a typed target panicked: " + msg, Case: cs})
+					continue
+				}
+			}
+			// the model runs the same two requests
+			shape := sh.sx
+			mAns := ""
+			if first != "" {
+				// state after the first request is carried by asking the model for both in sequence: adoption is history free
+				// except for the DateTime64 location, which the model keeps as well; replay the first request on a fresh shape
+				locs := c19LocTable(first)
+				if l2 := c19LocTable(t); l2 != "." {
+					if locs == "." {
+						locs = l2
+					} else {
+						locs += "," + l2
+					}
+				}
+				mAns = c.D.Ask(fmt.Sprintf("c18.adopt2 %s %s %s %s", hx([]byte(first)), hx([]byte(t)), locs, shape))
+			} else {
+				mAns = c.D.Ask(fmt.Sprintf("c18.adopt %s %s %s", hx([]byte(t)), c19LocTable(t), shape))
+			}
+			R.Compared()
+			f := strings.Fields(mAns)
+			switch {
+			case len(f) == 0 || f[0] == "bad-args":
+				R.Violate(Violation{Kind: "correspondence", Key: "model-adopt-differs", What: "no answer from the model: " + mAns, Case: cs, Obligation: "correspondence c18.adopt"})
+			case f[0] == "err" && err == nil, f[0] == "ok" && err != nil:
+				R.Violate(Violation{Kind: "correspondence", Key: "model-adopt-differs", What: fmt.Sprintf("Infer(%q) on %s: code error=%v, model %s", t, sh.sx, err, mAns), Case: cs, Obligation: "correspondence c18.adopt"})
+			case f[0] == "ok":
+				R.Count("adopt:both-ok")
+				if rep := hx([]byte(col.Type())); len(f) > 1 && f[1] != rep {
+					R.Violate(Violation{Kind: "correspondence", Key: "model-adopt-differs", What: fmt.Sprintf("Infer(%q) on %s: the column reports %q, the model's %q", t, sh.sx, col.Type(), unhx(f[1])), Case: cs, Obligation: "correspondence c18.adopt"})
+				}
+			default:
+				R.Count("adopt:both-err")
+			}
 		}
 	}
 }
